@@ -3,7 +3,7 @@ NEXT Next
 CONSTANTS
   ReplyLen = 2
   Family = "faults"
-  FaultBehs = {"ok1", "ok2", "missing", "exit1", "sigkill", "stderr0", "noread", "truncmid", "badutf8", "empty"}
+  FaultBehs = {"ok1", "ok2", "okshort", "missing", "exit1", "sigkill", "stderr0", "noread", "truncmid", "badutf8", "hugestr", "empty"}
   MaxGens = 3
   TruncLen = 0
 INVARIANT Emit
